@@ -230,6 +230,7 @@ func EndpointsToUnmanage(previous, current []*HAProxyEndpointData) []*HAProxyEnd
 // an endpoint may be managed again (removed and restored by two updates in a row), and must stay.
 var (
 	currentlyManaged      = map[string]struct{}{}
+	currentlyManagingAll  bool
 	currentlyManagedMutex sync.Mutex
 )
 
@@ -244,6 +245,7 @@ func ManageHAProxyEndpoints(haproxyEndpoints *HAProxyEndpointsRequest) error {
 	}
 	currentlyManagedMutex.Lock()
 	currentlyManaged = managed
+	currentlyManagingAll = haproxyEndpoints.ManageAll
 	currentlyManagedMutex.Unlock()
 	log.Debug().Msg("✍️  Successfully updated endpoints")
 	return nil
@@ -254,6 +256,15 @@ func isCurrentlyManaged(endpoint string) bool {
 	defer currentlyManagedMutex.Unlock()
 	_, found := currentlyManaged[endpoint]
 	return found
+}
+
+// isManagingAll tells whether the configuration that was registered last manages all traffic. Like a
+// single endpoint, "manage all" may have been dropped and restored by two updates within the retention
+// period; the un-registration scheduled by the first of them must then leave it alone.
+func isManagingAll() bool {
+	currentlyManagedMutex.Lock()
+	defer currentlyManagedMutex.Unlock()
+	return currentlyManagingAll
 }
 
 func unmanageHAProxyEndpoints(unmanagedEndpoints []*HAProxyEndpointData) error {
